@@ -32,6 +32,8 @@ RULE = ("sync: 4-25 events (battery/inverter messages healthy or faulty in one w
         "future-stamped, timer ticks mostly exactly one max-age after the stream's last arrival, set-power results) with "
         "time steps from {0, 1/8 s, 1 s, 2 s, 4 s, maxAge-1/8, maxAge, maxAge+1/8, block expiry-1/8, expiry, expiry+1/8}; "
         "actor: 4-20 timed actions on a 1/8 s grid with real timers; pool: 3-15 status/selection ops, 3 batteries; "
+        "pool with real trackers: 40% of the set-power actions are BURSTS of 2-4 results (sometimes with a data message) "
+        "published in one event-loop step with different failed/succeeded sets; "
         "long failure runs (sync and actor): a healthy battery with 50-80 consecutive failed commands, each at / just after "
         "the expiry of the previous block, then a success and a failure (back-off starts over); "
         "non-trivial = the battery is reported WORKING at least once and the case contains a disqualifying event, an "
@@ -222,29 +224,48 @@ def pool_fold_oracle(ctx: Ctx, case: dict, out: dict) -> None:
 
 
 def gen_pool_actor(rng: Any) -> dict:
-    max_age = rng.choice([2 * g.SEC, 5 * g.SEC])
+    steady = rng.random() < 0.5
+    max_age = 5 * g.SEC if steady else rng.choice([2 * g.SEC, 5 * g.SEC])
     bats = [9, 19, 29]
     t = 0
     actions = []
     residue = {9: 1, 19: 2, 29: 3}
     for _ in range(rng.randint(5, 16)):
         r = rng.random()
-        t += rng.choice([g.SEC, g.SEC, 2 * g.SEC, max_age + g.SEC])
+        t += rng.choice([g.SEC, g.SEC, 2 * g.SEC, 2 * g.SEC if steady else max_age + g.SEC])
         base = t // (8 * g.Q) * (8 * g.Q)
         req = sorted(rng.sample(bats, rng.randint(1, 3)))
         if r < 0.6:
             b = rng.choice(bats)
             kind = rng.choice(["bat", "inv"])
-            ev = g.gen_facts(rng, kind, max_age, p_bad=0.12)
+            ev = g.gen_facts(rng, kind, max_age, p_bad=0.04 if steady else 0.12)
             ev["delay"] = 0
             actions.append({"t": base + residue[b] * g.Q + (4 * g.Q if kind == "inv" else 0), "bat": b, "ev": ev, "req": req})
         elif r < 0.85:
-            fail = rng.sample(bats, rng.randint(0, 2))
-            succ = [b for b in bats if b not in fail and rng.random() < 0.5]
-            actions.append({"t": base + 7 * g.Q, "ev": {"k": "sp", "succ": sorted(succ), "fail": sorted(fail)}, "req": req})
+            def one_result() -> dict:
+                fail = rng.sample(bats, rng.randint(0, 2))
+                succ = [b for b in bats if b not in fail and rng.random() < 0.5]
+                return {"k": "sp", "succ": sorted(succ), "fail": sorted(fail)}
+            if rng.random() < 0.4:
+                # burst: 2-4 results (sometimes with a data message) published in one event-loop step
+                evs = [one_result() for _ in range(rng.randint(2, 4))]
+                if rng.random() < 0.25:
+                    ev = g.gen_facts(rng, rng.choice(["bat", "inv"]), max_age, p_bad=0.12)
+                    ev["delay"] = 0
+                    ev["bat"] = rng.choice(bats)
+                    evs.insert(rng.randint(0, len(evs)), ev)
+                actions.append({"t": base + 7 * g.Q, "evs": evs, "req": req})
+            else:
+                actions.append({"t": base + 7 * g.Q, "ev": one_result(), "req": req})
         else:
             actions.append({"t": base, "ev": None, "req": req})
-    actions.sort(key=lambda a: a["t"])
+    if steady:  # keep every battery alive: fresh healthy data on all streams every 2 s (unless the slot is taken)
+        good = {"bat": dict(g.GOOD_BAT, delay=0), "inv": dict(g.GOOD_INV, delay=0)}
+        for base in range(0, t + 2 * g.SEC, 2 * g.SEC):
+            for b in bats:
+                for kind, off in (("bat", 0), ("inv", 4 * g.Q)):
+                    actions.append({"t": base + residue[b] * g.Q + off, "bat": b, "ev": good[kind], "req": bats})
+    actions.sort(key=lambda a: a["t"])  # stable: a generated action wins over a refresh in the same slot
     ded, seen = [], set()
     for a in actions:
         if a["t"] not in seen and a["t"] > 0:
@@ -261,15 +282,14 @@ def pool_actor_model_cases(case: dict) -> list[dict]:
     for b in case["bats"]:
         acts = []
         for a in case["actions"]:
-            ev = a.get("ev")
-            if ev is None:
-                acts.append({"t": a["t"], "ev": None})
-            elif ev["k"] == "sp":
-                acts.append({"t": a["t"], "ev": {"k": "sp", "succ": b in ev["succ"], "fail": b in ev["fail"]}})
-            elif a["bat"] == b:
-                acts.append({"t": a["t"], "ev": ev})
-            else:
-                acts.append({"t": a["t"], "ev": None})
+            mine = []
+            for ev, eb in g.action_events(a):
+                if ev["k"] == "sp":
+                    mine.append({"k": "sp", "succ": b in ev["succ"], "fail": b in ev["fail"]})
+                elif eb == b:
+                    mine.append({k: v for k, v in ev.items() if k != "bat"})
+            # the events of a burst reach the tracker in order, at the same instant
+            acts += [{"t": a["t"], "ev": ev} for ev in mine] or [{"t": a["t"], "ev": None}]
         out.append({"mode": "actor", "maxAge": case["maxAge"], "maxBlk": case["maxBlk"], "ts0": case["ts0"],
                     "t0": case["t0"], "actions": acts})
     return out
@@ -292,7 +312,10 @@ def check_pool_actor(ctx: Ctx, cases: list[dict]) -> None:
                               if w else "pool: get_working_components", c, {"t": a["t"], "observed": ob, "expected": expect})
             if set(ob["w"]) & set(ob["u"]):
                 ctx.violation("pool: a component is both working and uncertain", c, {"t": a["t"], "observed": ob})
-        ctx.case(c, tags=["pool-actor"] + (["pool-actor:uncertain"] if any(ob["u"] for ob in o["obs"]) else []),
+        for clause, observed, regime in g.pool_burst_oracle(c, o["obs"]):
+            ctx.violation(clause, c, observed, regime)
+        ctx.case(c, tags=["pool-actor"] + (["pool-actor:uncertain"] if any(ob["u"] for ob in o["obs"]) else [])
+                 + (["pool-actor:burst"] if any(a.get("evs") for a in c["actions"]) else []),
                  nontrivial=any(ob["w"] for ob in o["obs"]))
     # model: per-battery trackers with simulated timers, their notifications folded into the pool
     stage1_cases, owner = [], []
@@ -308,6 +331,9 @@ def check_pool_actor(ctx: Ctx, cases: list[dict]) -> None:
     for (ci, b), mo in zip(owner, s1):
         notes_of.setdefault(ci, []).extend([t, b, st] for t, st in mo["notes"])
         if has_race(mo["log"]):
+            racy.add(ci)
+    for ci, c in enumerate(cases):  # a data message and a result in the same step: delivery order is the scheduler's
+        if any(a.get("evs") and any(e["k"] != "sp" for e in a["evs"]) for a in c["actions"]):
             racy.add(ci)
     stage2 = []
     for ci, c in enumerate(cases):
